@@ -65,8 +65,9 @@ let cmp_set = function
   | CT -> ["T"] | CF -> ["F"] | CE -> ["E"] | CFE -> ["F"; "E"] | CFuel -> ["fuel"]
 
 let dispatch fn args = match fn, args with
-  | "EqualObjects", [g; o1; o2; pairs; observed] ->
-    let r = equalObjects (nat_of_int 3000) (graph_of_string g) (obj_of_string o1) (obj_of_string o2) (zlist_of_string pairs) in
+  | "EqualObjects", [g; o1; o2; pairs; observed; limit] ->
+    let lim = z_of_hex limit in
+    let r = equalObjects0 (enoughFuel lim) lim (graph_of_string g) (obj_of_string o1) (obj_of_string o2) (zlist_of_string pairs) in
     let m = cmp_set r in
     let obs = List.filter (fun x -> x <> "") (String.split_on_char ',' observed) in
     if obs <> [] && List.for_all (fun x -> List.mem x m) obs then "consistent"
@@ -74,8 +75,9 @@ let dispatch fn args = match fn, args with
   | "Unfold", [g; o1; o2; n] ->
     let gr = graph_of_string g in
     str_of_bool (simb (nat_of_int (int_of_z (z_of_hex n))) gr (obj_of_string o1) gr (obj_of_string o2))
-  | "ContentDup", [g; cached; nw; observed] ->
-    let r = contentStreamDup (nat_of_int 3000) (graph_of_string g) (obj_of_string cached) (obj_of_string nw) in
+  | "ContentDup", [g; cached; nw; observed; limit] ->
+    let lim = z_of_hex limit in
+    let r = contentStreamDup (enoughFuel lim) lim (graph_of_string g) (obj_of_string cached) (obj_of_string nw) in
     let m = cmp_set r in
     let obs = List.filter (fun x -> x <> "") (String.split_on_char ',' observed) in
     if obs <> [] && List.for_all (fun x -> List.mem x m) obs then "consistent"
